@@ -62,6 +62,82 @@ func c17FieldSets(f *core.FuncInfo, field string, lo, hi token.Pos) []c17FieldSe
 	return out
 }
 
+// c17HandedBack: the frame is a helper that does not queue a response itself but every call of it is
+// followed, in the calling frame, by a place that may queue one. Its return points then stand for the
+// send: what the helper put into the response is what the caller queues.
+func c17HandedBack(sc *c17Scope, fr *c17Frame, sends func(*c17Frame) []core.Point) []core.Point {
+	if fr.Root || fr.End != nil || len(fr.Callers) == 0 {
+		return nil
+	}
+	for _, cl := range fr.Callers {
+		if cl.Detached {
+			return nil
+		}
+		later := false
+		for _, sp := range sc.MaySites(cl.Parent, sends) {
+			if cl.Parent.reaches(cl.Site.Pt, sp) {
+				later = true
+			}
+		}
+		if !later {
+			return nil
+		}
+	}
+	return fr.F.ReturnPoints()
+}
+
+// c17ResetPerRound decides that the flag variable the session's done latch (and the response's Done
+// mark) is copied from speaks about the current chunk only: when the copy lies on a cycle of its
+// function, every way round passes a fresh definition of the variable made in the function's own body
+// (not inside a callback literal, not in terms of its own previous value). A variable that is local to a
+// helper called once per chunk is fresh by construction. A parameter is followed to the argument of
+// every call. Returns the verdict and a description of the offending round.
+func c17ResetPerRound(sc *c17Scope, fr *c17Frame, v *types.Var, at core.Point, depth int) (bool, string) {
+	f := fr.F
+	if v == nil || depth <= 0 {
+		return true, ""
+	}
+	if i := c18ParamIndex(f, v); i >= 0 {
+		if len(assignsToVar(f, v)) > 0 || fr.Root || fr.End != nil {
+			return true, ""
+		}
+		for _, cl := range fr.Callers {
+			if cl.Detached || i >= len(cl.Site.Call.Args) {
+				continue
+			}
+			pf := cl.Parent.F
+			w := c17ValueSource(pf, cl.Site.Call.Args[i], cl.Site.Pt, nil, 4)
+			if ok, why := c17ResetPerRound(sc, cl.Parent, w, cl.Site.Pt, depth-1); !ok {
+				return false, why
+			}
+		}
+		return true, ""
+	}
+	if !(f.Body.Pos() <= v.Pos() && v.Pos() < f.Body.End()) {
+		return true, "" // not a local of this function: nothing to decide here
+	}
+	if !fr.reaches(at, at) {
+		return true, ""
+	}
+	var fresh []core.Point
+	for _, a := range assignsToVar(f, v) {
+		if a.Tok != token.ASSIGN && a.Tok != token.DEFINE {
+			continue
+		}
+		if a.RHS != nil && mentionsObj(f, a.RHS, v) {
+			continue
+		}
+		if _, isRange := a.Stmt.(*ast.RangeStmt); isRange {
+			continue
+		}
+		fresh = append(fresh, a.Pt)
+	}
+	if wit, again := fr.round(at, core.PointSet(fresh...), nil); again {
+		return false, "in " + short(f.Name) + " the flag '" + v.Name() + "' keeps its value from the previous chunk: " + f.DescribePath(wit)
+	}
+	return true, ""
+}
+
 // c17ValueSource follows a value back to the local variable it was copied from: a variable stands for
 // itself (pure aliases looked through); a read of one of the tracked fields stands for the value last
 // stored into it, when one store of that field precedes the read on every path (in the same iteration)
